@@ -40,6 +40,18 @@ ASSUMPTIONS = [
     "span test for random cases: against a harness reference basis (Arnoldi with two full re-orthogonalisation "
     "passes in complex128) for the first <= 6 (float64) / <= 4 (float32) Krylov spaces only",
     "start vectors are non-zero; v and A have the same dtype",
+    "scale-equivariance family (attr op_scale): scaled copies c*A, c in {1e-9, 1e-30 (double precision only: the "
+    "squares of the entries underflow in single precision), 1e6, 2^-20}, of a deterministic subset of the catalog / "
+    "exact-breakdown / by-construction / random items (single and batched, default tolerance = argument omitted and "
+    "explicit ones).  They carry the attrs of the unscaled original plus op_scale and are checked by every clause of "
+    "the original with tolerances relative to ||cA|| (expected eigenvalues and TLC's exact T multiplied by c, same "
+    "KDim / counts); clause scale_equivariance compares with the run on A in the same dtype: same number of steps / "
+    "columns (asserted when the stop is visible - tol >= 1e3*eps - or c is a power of two, and the start vector is not "
+    "in the null space), same leading basis vectors and T = c * T(A) up to the relative tolerance (1e-12 on "
+    "everything when c is a power of two).  TLC side: Krylov!ScaleEquivariantAt / MC_Krylov!ScaleEquivariant check on "
+    "every exact catalog case that c*A (c = 1/4, 8; 32-bit integers) has the same exact basis, c*H, the same breakdown "
+    "step and expected observables; exact-breakdown cases are scaled by the power of two only (the run stays exact, "
+    "tol = 0 included)",
     "exact-breakdown family (attr exact=true): Hermitian operators / start vectors with small integer entries for "
     "which TLC computes the Arnoldi (= Lanczos) factorisation exactly over Q(i) and certifies that it is exact in "
     "binary floating point (Krylov!ExactArnoldiOK: dyadic entries, perfect-square norms, zero residual exactly at "
@@ -171,6 +183,34 @@ def check_single(A, v, Qd, Td, m, tol, dt, kdim, detectable, K=None, spec=None, 
     return out, kdim, detectable
 
 
+def check_scaled(Qs, Ts, Q1, T1, c, dt, A_s, kdim, m, jmax, count_ok=True):
+    """Scale equivariance against the run on the unscaled operator (same dtype, start vector, max_iters, tol): same
+    number of columns, same basis, T = c * T_1, up to rounding.  Compared on the leading well-determined part: the
+    first min(columns, KDim, jmax) columns (all, when the scaling is exact: c a power of two)."""
+    rt, _ = kf.tol_of(dt)
+    sA = max(float(np.abs(A_s).sum(1).max()), 1e-300)
+    if Qs.shape != Q1.shape or Ts.shape != T1.shape:
+        if count_ok:
+            return (f"{Qs.shape[-1]} columns for {c:g}*A but {Q1.shape[-1]} for A", {"which": "columns"})
+        return None
+    if not (np.all(np.isfinite(Q1)) and np.all(np.isfinite(T1)) and np.all(np.isfinite(Qs)) and np.all(np.isfinite(Ts))):
+        return None
+    if kf.is_pow2(c) and count_ok:
+        lead, tq = Qs.shape[1], 1e-12
+    else:
+        lead, tq = min(Qs.shape[1], jmax, kdim if kdim is not None else 1), rt
+    Qs, Q1 = Qs.astype(np.complex128), Q1.astype(np.complex128)
+    Ts, T1 = Ts.astype(np.complex128), T1.astype(np.complex128) * c
+    dq = float(np.abs(Qs[:, :lead] - Q1[:, :lead]).max(initial=0.0))
+    # the last diagonal entry of the compared block involves the next (possibly ill-determined) vector only through
+    # alpha_lead = q^H A q, which is well determined with q
+    dh = float(np.abs(Ts[:lead, :lead] - T1[:lead, :lead]).max(initial=0.0))
+    if dq > tq or dh > tq * sA:
+        return (f"leading {lead} columns of Q differ by {kf.fmt(dq)}, T from {c:g} * T(A) by {kf.fmt(dh)} "
+                f"(||cA|| = {kf.fmt(sA)})", {"which": "factorisation"})
+    return None
+
+
 def dense_T(T, b=None):
     """Dense projection of the returned Tridiagonal (batched: element b)."""
     if b is None:
@@ -179,11 +219,13 @@ def dense_T(T, b=None):
     return np.diag(be) + np.diag(al, -1) + np.diag(ga, 1)
 
 
-def call_lanczos(A_op, v, m, tol, n, tag, api="lanczos", kd=0):
+def call_lanczos(A_op, v, m, tol, n, tag, api="lanczos", kd=0, default_tol=False, sc=None):
+    """default_tol: the tolerance argument is omitted (cola's default, = tol = 1e-7)."""
+    kw = {} if default_tol else {"tol": tol}
     from cola.linalg.decompositions.decompositions import Lanczos
     from cola.linalg.decompositions.lanczos import lanczos
     rec = recorder()
-    rec.meta = {"alg": "lanczos", "n": n, "m": m, "tol": tol, "tag": tag, "kd": kd}
+    rec.meta = {"alg": "lanczos", "n": n, "m": m, "tol": tol, "tag": tag, "kd": kd, "sc": sc}
     rec.on = True
     k0 = len(rec.traces)
     try:
@@ -191,9 +233,9 @@ def call_lanczos(A_op, v, m, tol, n, tag, api="lanczos", kd=0):
             warnings.simplefilter("ignore")
             with np.errstate(all="ignore"):
                 if api == "Lanczos":
-                    Q, T, info = Lanczos(start_vector=v, max_iters=m, tol=tol)(A_op)
+                    Q, T, info = Lanczos(start_vector=v, max_iters=m, **kw)(A_op)
                 else:
-                    Q, T, info = lanczos(A_op, v, max_iters=m, tol=tol)
+                    Q, T, info = lanczos(A_op, v, max_iters=m, **kw)
     finally:
         rec.on = False
     tr = rec.traces[k0:]
@@ -203,17 +245,18 @@ def call_lanczos(A_op, v, m, tol, n, tag, api="lanczos", kd=0):
     return Q, T, info, tr
 
 
-def call_eigs(A_op, v, m, tol, n, tag, kd=0):
+def call_eigs(A_op, v, m, tol, n, tag, kd=0, default_tol=False, sc=None):
     from cola.linalg.decompositions.lanczos import lanczos_eigs
+    kw = {} if default_tol else {"tol": tol}
     rec = recorder()
-    rec.meta = {"alg": "lanczos", "n": n, "m": m, "tol": tol, "tag": tag, "kd": kd}
+    rec.meta = {"alg": "lanczos", "n": n, "m": m, "tol": tol, "tag": tag, "kd": kd, "sc": sc}
     rec.on = True
     k0 = len(rec.traces)
     try:
         with warnings.catch_warnings():
             warnings.simplefilter("ignore")
             with np.errstate(all="ignore"):
-                ev, V, info = lanczos_eigs(A_op, v, max_iters=m, tol=tol)
+                ev, V, info = lanczos_eigs(A_op, v, max_iters=m, **kw)
     finally:
         rec.on = False
     tr = rec.traces[k0:]
@@ -274,8 +317,13 @@ def mk_viol(item, clause, detail, m, extra, n, kdim, batched, api, dt, tol):
     at = {"dtype": dt, "n": n, "max_iters": m, "regime": regime(m, n), "tol": tol,
           "breakdown": bool(kdim is not None and kdim < cap), "batched": batched, "kdim": kdim, "api": api,
           "source": item["src"], "exact": bool(item.get("exact"))}
+    sc = item.get("op_scale")
+    if sc is not None:      # scaled copy of an existing case: the attrs of the original plus the factor
+        at["op_scale"] = float(sc)
+        at["tol_default"] = item.get("tol") is None
     at.update(extra)
-    case = f"{item['name']} {dt} m={m} tol={tol:g}{' batched' if batched else ''} {api}"
+    case = f"{item['name']} {dt} m={m} tol={tol:g}{' batched' if batched else ''}" \
+           f"{'' if sc is None else f' scale={sc:g}'} {api}"
     rp = dict(item)
     rp["only_m"] = m
     return Violation(PROP, clause, case, at, detail, replay=rp)
@@ -286,9 +334,21 @@ def run_family(item, A, vs, kdims, Ks, specs, eigA, detect_ok, ms, count_ok=True
     Xs[b]: exact (Q, H) of the exact-breakdown family."""
     import cola
     dt, tol = item["dt"], item["tol"]
+    dflt = tol is None          # the tolerance argument is omitted: cola's default 1e-7
+    tol = 1e-7 if dflt else tol
     n = A.shape[0]
     _, eps = kf.tol_of(dt)
     exact = bool(item.get("exact"))
+    # scaled copy c*A of an existing case (scale equivariance): same start vectors, KDims, Krylov spaces and basis;
+    # eigenvalues and T scale with c; every tolerance of the clauses is relative to ||c A||
+    sc = item.get("op_scale")
+    A1 = A
+    if sc is not None:
+        A = A * sc
+        specs = [None if w is None else [complex(x) * sc for x in w] for w in specs]
+        eigA = None if eigA is None else np.asarray(eigA) * sc
+        if Xs is not None:
+            Xs = [None if X is None else (X[0], X[1] * sc) for X in Xs]
     # exact-breakdown family: the residual at KDim is the number 0.0, so the stop is visible for every tol >= 0
     detectable = detect_ok and (tol >= 1e3 * eps or exact)
     kd_tr = max(kdims) if exact else 0
@@ -296,8 +356,11 @@ def run_family(item, A, vs, kdims, Ks, specs, eigA, detect_ok, ms, count_ok=True
     npd = kf.NPDT[dt]
     if not np.issubdtype(npd, np.complexfloating):
         A, vs = np.real(A), [np.real(x) for x in vs]
+        A1 = np.real(A1)
     A_t = A.astype(npd)
     herm = cola.SelfAdjoint(cola.ops.Dense(A_t))
+    herm1 = cola.SelfAdjoint(cola.ops.Dense(A1.astype(npd))) if sc is not None else None
+    ca = dict(kd=kd_tr, default_tol=dflt, sc=sc)
     viol, traces, nchk = [], [], 0
     batched = len(vs) > 1
     jmax = 6 if dt in ("f64", "c128") else 4
@@ -319,7 +382,7 @@ def run_family(item, A, vs, kdims, Ks, specs, eigA, detect_ok, ms, count_ok=True
         try:
             if not batched:
                 v = vs[0].astype(npd)
-                Q, T, info, tr = call_lanczos(herm, v, m, tol, n, tag, kd=kd_tr)
+                Q, T, info, tr = call_lanczos(herm, v, m, tol, n, tag, **ca)
                 traces += tr
                 Qd, Td = np.asarray(Q.to_dense()), dense_T(T)
                 res, kd_eff, det_eff = check_single(A_t, v, Qd, Td, m, tol, dt, kdims[0], detectable, Ks[0], specs[0],
@@ -328,9 +391,18 @@ def run_family(item, A, vs, kdims, Ks, specs, eigA, detect_ok, ms, count_ok=True
                 for cl, de, ex in res:
                     viol.append(mk_viol(item, cl, de, m, ex, n, kdims[0], False, "lanczos", dt, tol))
                 count_bad = any(cl == "column_count" for cl, _, _ in res)
+                if sc is not None and not any(cl == "finite" for cl, _, _ in res):
+                    Q1, T1, _, _ = call_lanczos(herm1, v, m, tol, n, tag + "|unscaled", **ca)
+                    nchk += 1
+                    msg = check_scaled(Qd, Td, np.asarray(Q1.to_dense()), dense_T(T1), sc, dt, A_t, kdims[0], m, jmax,
+                                       count_ok=(det_eff or kf.is_pow2(sc)) and not count_bad
+                                       and not kf.null_start(hss[0], A_t))
+                    if msg:
+                        viol.append(mk_viol(item, "scale_equivariance", msg[0], m, msg[1], n, kdims[0], False, "lanczos",
+                                            dt, tol))
                 # lanczos_eigs on the same input
                 if item.get("eigs", True):
-                    ev, Vd, _, tr2 = call_eigs(herm, v, m, tol, n, tag + "|eigs", kd=kd_tr)
+                    ev, Vd, _, tr2 = call_eigs(herm, v, m, tol, n, tag + "|eigs", **ca)
                     traces += tr2
                     exh = (kd_eff is not None and kd_eff == kdims[0] and Td.shape[0] == kd_eff
                            and (det_eff or kd_eff == n) and not count_bad and count_ok)
@@ -340,7 +412,7 @@ def run_family(item, A, vs, kdims, Ks, specs, eigA, detect_ok, ms, count_ok=True
                         viol.append(mk_viol(item, cl, de, m, ex, n, kdims[0], False, "lanczos_eigs", dt, tol))
                 # the algorithm object gives the same factorisation
                 if item.get("alg_obj", False):
-                    Q2, T2, _, tr3 = call_lanczos(herm, v, m, tol, n, tag + "|obj", api="Lanczos", kd=kd_tr)
+                    Q2, T2, _, tr3 = call_lanczos(herm, v, m, tol, n, tag + "|obj", api="Lanczos", **ca)
                     traces += tr3
                     nchk += 1
                     Q2d, T2d = np.asarray(Q2.to_dense()), dense_T(T2)
@@ -351,7 +423,7 @@ def run_family(item, A, vs, kdims, Ks, specs, eigA, detect_ok, ms, count_ok=True
                                             "Lanczos", dt, tol))
             else:
                 V = np.stack([x.astype(npd) for x in vs], axis=1)      # (n, b)
-                Q, T, info, tr = call_lanczos(herm, V, m, tol, n, tag + "|batched", kd=kd_tr)
+                Q, T, info, tr = call_lanczos(herm, V, m, tol, n, tag + "|batched", **ca)
                 traces += tr
                 QA = np.asarray(Q.A)
                 nb = len(vs)
@@ -378,12 +450,28 @@ def run_family(item, A, vs, kdims, Ks, specs, eigA, detect_ok, ms, count_ok=True
                                             f"min(max_iters, n, max KDim) = {e}", m,
                                             dict(uni, excess="more" if c > e else "fewer"), n, kmax, True,
                                             "lanczos", dt, tol))
+                Q1A = T1 = None
+                if sc is not None and all(np.all(np.isfinite(x)) for x in Tall) and np.all(np.isfinite(QA)):
+                    Q1, T1, _, _ = call_lanczos(herm1, V, m, tol, n, tag + "|batched|unscaled", **ca)
+                    nchk += 1
+                    Q1A = np.asarray(Q1.A)
+                    cok = (detectable or kf.is_pow2(sc)) and kmax is not None and count_ok \
+                        and not any(kf.null_start(h, A_t) for h in hss)
+                    if Q1A.shape != QA.shape and cok:
+                        viol.append(mk_viol(item, "scale_equivariance", f"batched run on {sc:g}*A returned {c} columns, on A "
+                                            f"{Q1A.shape[-1]}", m, dict(uni, which="columns"), n, kmax, True, "lanczos", dt,
+                                            tol))
                 for b in range(nb):
                     Td = dense_T(T, b)
                     kb = kdims[b]
                     keep = c if kb is None else min(c, kb, cap)
                     res, _, _ = check_single(A_t, V[:, b], QA[b][:, :keep], Td[:keep, :keep], m, tol, dt, kb, detectable,
                                              Ks[b], specs[b], eigA, assert_count=False, hs=hss[b], X=Xs[b])
+                    if Q1A is not None and Q1A.shape == QA.shape:
+                        msg = check_scaled(QA[b][:, :keep], Td[:keep, :keep], Q1A[b][:, :keep], dense_T(T1, b)[:keep, :keep],
+                                           sc, dt, A_t, kb, m, jmax, count_ok=False)
+                        if msg:
+                            res = list(res) + [("scale_equivariance", msg[0], msg[1])]
                     for cl, de, ex in res:
                         ex = dict(ex)
                         ex["element"] = b
@@ -551,7 +639,69 @@ def plan_struct(quick):
     return items
 
 
+def plan_scaled(items, quick):
+    """Scale-equivariance family: scaled copies c*A of a deterministic subset of the items planned above (catalog,
+    exact-breakdown, by-construction and random Hermitian cases; single and batched), c in kf.SCALES where the dtype
+    can represent the run (1e-30: squares of the entries underflow in single precision), with the default tolerance
+    (argument omitted) and explicit ones.  Every clause of the original applies with tolerances relative to ||cA||;
+    clause scale_equivariance compares with the run on A."""
+    out = []
+    seen = {}
+    nonx = ("h1:", "h2c:", "h3pd:", "h3sing:", "h3cind:", "h3rep:", "h4rep:", "h4ind:", "h3tri:", "h3cplain:")
+    starts = (":gen", ":ev1+2", ":ev2+3", ":e1", ":batch-mixed", ":batch-kdim2", "h3cind:ev3", "h3cind:batch-kdim1",
+              "h3pd:ev1", "h4rep:ev1")
+    xm = ("x1r:", "xswap2:", "xdiag3z:", "xblk4h:", "xblk4c:") if quick else \
+        ("x1r:", "xswap2:", "xperm4s:", "xdiag4:", "xdiag4s:", "xdiag3z:", "xblk4h:", "xblk4c:", "xid4:", "xid3s:")
+    sn = ("struct-swaps-batch-n7", "struct-swaps-n200", "struct-hblock-n7", "struct-cblock-n6", "struct-diag-n200")
+    k = 0
+    for it in items:
+        nm, dt = it["name"], it["dt"]
+        if it["src"] == "catalog" and not it.get("exact"):
+            if not (nm.startswith(nonx) and nm.endswith(starts)):
+                continue
+        elif it["src"] == "catalog":
+            if not nm.startswith(xm) or (quick and (it["tol"] != 0 or dt in ("f32", "c128") and it["cases"][0]["real"])):
+                continue
+        elif it["src"] == "struct":
+            if not nm.startswith(sn) or (quick and dt != it["dts"][0]):
+                continue
+        else:
+            if it["n"] not in ((5, 30, 300) if quick else (1, 2, 5, 13, 30, 64, 300)):
+                continue
+            if quick and (it["vkind"] == "eigvec" or it["kind"] in ("pd", "clustered") and "batch" not in nm):
+                continue
+        key = (nm, dt)      # one set of scaled copies per (case, dtype): derived from the first tolerance planned
+        if key in seen:
+            continue
+        seen[key] = True
+        lo = dt in ("f32", "c64")
+        scs = [c for c in kf.SCALES if not (lo and c < 1e-20)]      # 1e-30: squares underflow in single precision
+        if it.get("exact"):
+            scs = [c for c in scs if kf.is_pow2(c)]       # the run stays exact in floating point: tol = 0 included
+        if quick:           # one factor per (case, dtype), rotating
+            scs = [scs[k % len(scs)]]
+        for c in scs:
+            k += 1
+            cp = dict(it)
+            cp["op_scale"] = c
+            cp["alg_obj"] = False
+            if not it.get("exact") and k % 2 == 0:
+                cp["tol"] = None        # default tolerance (argument omitted)
+            elif not it.get("exact") and k % 4 == 1:
+                cp["tol"] = 1e-3 if lo else 1e-4
+            if it["src"] == "random" and it["n"] > 13:
+                cp["ms"] = (it["ms"][-3:] if quick else it["ms"][-5:]) if it["n"] < 100 else it["ms"][1:3]
+                cp["eigs"] = False
+            out.append(cp)
+    return out
+
+
 def plan(cs, tier, seed):
+    items = plan_unscaled(cs, tier, seed)
+    return items + plan_scaled(items, tier == "quick")
+
+
+def plan_unscaled(cs, tier, seed):
     items = []
     herm = [c for c in cs if c["herm"]]
     by_mat = {}
@@ -682,7 +832,8 @@ def _run(tier, t0, proof):
         common.cleanup(wd)
     viol, n_viol_raw = kf.cap_violations(viol)
     cat_items = [it for it in items if it["src"] == "catalog"]
-    samples = [f"{it['name']} {it['dt']} tol={it['tol']:g}" for it in items[:: max(1, len(items) // 6)][:6]]
+    samples = [f"{it['name']} {it['dt']} tol={kf.tol_eff(it):g}" + (f" scale={it['op_scale']:g}" if it.get("op_scale") else "")
+               for it in items[:: max(1, len(items) // 6)][:6]]
     cov = {
         "states": stats["states"] + tres.distinct, "transitions": stats["transitions"] + tres.states,
         "traces_validated_against_impl": len(traces_v),
@@ -695,7 +846,15 @@ def _run(tier, t0, proof):
         "exact_breakdown_catalog_cases": len([c for c in cs if c.get("exact") and c["herm"]]),
         "exact_breakdown_items": len([it for it in items if it.get("exact")]),
         "exact_breakdown_items_tol0": len([it for it in items if it.get("exact") and it["tol"] == 0]),
-        "exact_breakdown_struct_items": len([it for it in items if it["src"] == "struct"]),
+        "exact_breakdown_struct_items": len([it for it in items if it["src"] == "struct" and not it.get("op_scale")]),
+        "scaled_items": len([it for it in items if it.get("op_scale")]),
+        "scaled_items_by_scale": {f"{c:g}": len([it for it in items if it.get("op_scale") == c]) for c in kf.SCALES},
+        "scaled_items_batched": len([it for it in items if it.get("op_scale") and (len(it.get("cases", [])) > 1
+                                                                                   or it.get("batch", 1) > 1
+                                                                                   or len(it.get("starts", [])) > 1)]),
+        "scaled_items_default_tol": len([it for it in items if it.get("op_scale") and it["tol"] is None]),
+        "scaled_traces_validated": len([t for t in traces_v if t.get("sc") is not None]),
+        "tlc_scale_equivariant_cases": stats.get("scale_equivariant_cases"),
         "exact_traces_validated": len([t for t in traces_v if t.get("kd", 0) > 0]),
         "exact_traces_validated_tol0": len([t for t in traces_v if t.get("kd", 0) > 0 and t.get("tol") == 0]),
         "mc_krylov_states": stats["mc_krylov_states"], "mc_loopcontrol_states": stats["mc_loopcontrol_states"],
